@@ -96,7 +96,7 @@ func (c cfg) conf() string {
 			fmt.Fprintf(&sb, "SecAction \"id:150,phase:1,pass,nolog,ctl:ruleEngine=%s\"\n", c.Ctl)
 		}
 		if c.D1Phase == p {
-			a := map[string]string{"deny": "deny", "deny500": "deny,status:500", "drop": "drop", "redirect": "redirect:http://x/", "block": "block"}[c.D1Kind]
+			a := map[string]string{"deny": "deny", "deny500": "deny,status:500", "drop": "drop", "redirect": "redirect:http://x/", "redirect301": "redirect:http://x/,status:301", "block": "block"}[c.D1Kind]
 			fmt.Fprintf(&sb, "SecAction \"id:201,phase:%d,log,%s\"\n", p, a)
 		}
 		if c.D2Phase == p {
@@ -117,6 +117,9 @@ func (c cfg) expectedD1() string {
 		return "{rule=201 action=drop status=0 data=\"\"}"
 	case "redirect":
 		return "{rule=201 action=redirect status=302 data=\"http://x/\"}"
+	case "redirect301":
+		// the rule's own status, wherever in the action list it is written
+		return "{rule=201 action=redirect status=301 data=\"http://x/\"}"
 	}
 	return ""
 }
@@ -384,9 +387,9 @@ func contains(xs []int, x int) bool {
 }
 
 func configs(thorough bool, emit func(c cfg)) {
-	kinds := []string{"deny", "redirect", "block"}
+	kinds := []string{"deny", "redirect", "redirect301", "block"}
 	if thorough {
-		kinds = []string{"deny", "deny500", "drop", "redirect", "block"}
+		kinds = []string{"deny", "deny500", "drop", "redirect", "redirect301", "block"}
 	}
 	for _, e := range []string{"On", "DetectionOnly", "Off"} {
 		for _, ctl := range []string{"", "On", "DetectionOnly", "Off"} {
